@@ -4,9 +4,13 @@
      --sync --needed P   : every not-installed p in P becomes installed AND explicit;
                            an already installed p is skipped (install reason unchanged)
      --remove P          : every p in P is removed (P is always a subset of installed here)
-     --sync --sysupgrade : clears [upgradable]
-     --query [--explicit] [--upgrades], --sync --refresh : no change of the package set *)
-From Coq Require Import List String Bool.
+     --sync --refresh    : the local sync database catches up with the mirrors (dbver := upstream)
+     --sync --sysupgrade : the installed packages catch up with the local sync database (sysver := dbver)
+     --query [--explicit] [--upgrades] : read-only; --upgrades answers from the LOCAL sync database
+   Versions are abstracted to one level per place: what is installed (sysver), what the local sync
+   database knows (dbver), what the mirrors offer (upstream).  The package state of the machine is
+   (installed, explicit, sysver); dbver is a cache. *)
+From Coq Require Import List String Bool Arith.
 Import ListNotations.
 Open Scope string_scope. Open Scope list_scope.
 
@@ -16,7 +20,8 @@ Fixpoint dedup (l : list string) : list string :=
 Definition diff (a b : list string) := filter (fun x => negb (mem x b)) a.
 Definition inter (a b : list string) := filter (fun x => mem x b) a.
 
-Record db := { installed : list string; explicit : list string; upgradable : bool }.
+Record db := { installed : list string; explicit : list string; sysver : nat; dbver : nat; upstream : nat }.
+Definition upgradable (d : db) : bool := Nat.ltb (sysver d) (dbver d).
 
 Inductive invocation :=
 | IQuery | IQueryExplicit | IQueryUpgrades
@@ -33,17 +38,21 @@ Definition plog1 (s : pst) (i : invocation) (d : db) : pst := {| pdb := d; plog 
 
 Definition db_sync (d : db) (p : list string) : db :=
   let new := diff p (installed d) in
-  {| installed := installed d ++ new; explicit := explicit d ++ new; upgradable := upgradable d |}.
+  {| installed := installed d ++ new; explicit := explicit d ++ new;
+     sysver := sysver d; dbver := dbver d; upstream := upstream d |}.
 Definition db_remove (d : db) (p : list string) : db :=
-  {| installed := diff (installed d) p; explicit := diff (explicit d) p; upgradable := upgradable d |}.
+  {| installed := diff (installed d) p; explicit := diff (explicit d) p;
+     sysver := sysver d; dbver := dbver d; upstream := upstream d |}.
 Definition db_upgrade (d : db) : db :=
-  {| installed := installed d; explicit := explicit d; upgradable := false |}.
+  {| installed := installed d; explicit := explicit d; sysver := dbver d; dbver := dbver d; upstream := upstream d |}.
+Definition db_refresh (d : db) : db :=
+  {| installed := installed d; explicit := explicit d; sysver := sysver d; dbver := upstream d; upstream := upstream d |}.
 
 Record presult := { pr_changed : bool; pr_installed : list string; pr_removed : list string; pr_upgraded : bool }.
 
 Definition pacman (p : pparams) (check : bool) (s0 : pst) : presult * pst :=
   let names := dedup (pp_names p) in
-  let s1 := if andb (pp_update_cache p) (negb check) then plog1 s0 IRefresh (pdb s0) else s0 in
+  let s1 := if andb (pp_update_cache p) (negb check) then plog1 s0 IRefresh (db_refresh (pdb s0)) else s0 in
   let '(to_install, to_remove, s2) :=
     match pp_state p with
     | PPresent => (diff names (installed (pdb s1)), [], plog1 s1 IQuery (pdb s1))
